@@ -37,7 +37,7 @@ fn hay_needle(class: &str, hl: usize, nl: usize, rng: &mut Rng) -> (Vec<u8>, Vec
 }
 
 fn fam_findsub(cx: &mut Cx) {
-    let nlens: Vec<usize> = if cx.thorough { vec![1, 2, 3, 4, 5, 7, 8, 9, 15, 16, 17, 18, 31, 32, 33, 34, 40, 64, 65] } else { vec![1, 2, 4, 8, 15, 16, 17, 33] };
+    let nlens: Vec<usize> = if cx.thorough { vec![1, 2, 3, 4, 5, 7, 8, 9, 15, 16, 17, 18, 31, 32, 33, 34, 40, 64, 65] } else { vec![1, 2, 4, 8, 15, 16, 17, 32, 33] };
     for (name, f, ascii) in findsub_subjects() {
         if !cx.subject(name, "find_sub", "") {
             continue;
